@@ -34,6 +34,7 @@ ASSUMPTIONS = [
     "arrow positions and heights are compared with the closed form of a model that is linear in its parameters with y-uncertainties only (exact parabola); the minimum cost and the parameter value are read from the fit itself",
     "the contour level is checked on the iminuit backend (spy on Minuit.mncontour and the geometry of the returned points); the scipy backend's heuristic grid contour takes no confidence level and is not examined",
     "x_margin of an arrow specification is a plotting aid and not compared",
+    "profile() is reached as fit._fitter.profile(...), the call ContoursProfiler makes: no public accessor returns the arrow specifications",
 ]
 
 # ----------------------------------------------------------------------------------------------------------------------
